@@ -2,7 +2,7 @@
 import json
 from gen import common, sysattr, api, framing
 
-LEAN_MODULE = ["XcmModel.Props.C04", "XcmModel.Props.Utls", "XcmModel.Props.Timer", "XcmModel.Props.Dns"]
+LEAN_MODULE = ["XcmModel.Props.C04", "XcmModel.Props.Utls", "XcmModel.Props.Timer", "XcmModel.Props.Dns", "XcmModel.Props.Funcs"]
 THEOREMS = [
     "XcmModel.C04.C04_pending_flush_is_watched", "XcmModel.C04.C04_idle_asks_nothing_extra",
     "XcmModel.C04.C04_condition_passed_down", "XcmModel.C04.C04_flush_progress", "XcmModel.C04.C04_btcp_wake",
@@ -16,6 +16,7 @@ THEOREMS = [
     "XcmModel.C04tp.C04_registrations_refreshed", "XcmModel.C04tp.C04_new_sockets_registered",
     "XcmModel.TimerProps.timer_inv_run", "XcmModel.TimerProps.C04_expired_timer_wakes", "XcmModel.TimerProps.C13_has_expired_implies_readable",
     "XcmModel.DnsProps.dns_inv_run", "XcmModel.DnsProps.C04_dns_deadline_wakes", "XcmModel.DnsProps.C04_dns_completion_rings",
+    "XcmModel.FuncsTie.conn_event_tie", "XcmModel.FuncsTie.server_event_tie",
 ]
 
 
